@@ -104,6 +104,17 @@ Definition m_ctrfs (k : nat) (limit : N) (plant : bool) (recs : list (list N)) :
   | Some f2 => listing dir (N.max 20 n_parts) (N.max 4 chunks) f2
   | None => str "PANIC"
   end.
+(* plant = 2: the directory holds what a REAL earlier library run with merge(false) left there (its temp files and its
+   counts table, possibly sharing storage); that content is not modelled - by ctr_fs_correct it cannot matter - and
+   only the partition / chunk counts and the counts table of this run are reported *)
+Definition m_ctrfs_after_real_run (k : nat) (limit : N) (recs : list (list N)) : list N :=
+  let '(dir, n_parts, chunks, f1) := ctrfs_setup k limit false recs in
+  dec n_parts ++ [44] ++ dec chunks ++ [124; 124] ++
+  match merge_fs n_parts chunks dir f1 with
+  | Some f2 => join [59] (probe f2 (str "counts") (counts_name dir))
+  | None => str "PANIC"
+  end.
+
 (* specification: only the RESULT file is specified - the counts table a fresh location would receive; temp files
    and what else the directory holds are the model's business (the comparison reduces the listing to the result
    files before it is compared with this line) *)
